@@ -606,6 +606,34 @@ func faultTable() map[string]faultFn {
 		t.roots = append(out, t.roots[at:]...)
 		return &injected{class: "missing-parameter:method-path-with-Path-child", off: m, patterns: []string{"path not found"}}
 	}
+	// a path with a repeated or an empty {parameter}, described by a Path directive (at the method, at the URL, at a method under
+	// the URL): the fault is in the path, i.e. on the directive the path is written at
+	for _, form := range []string{"method", "url", "method-under-url"} {
+		for _, fault := range []string{"duplicated", "empty"} {
+			form, fault := form, fault
+			class := "path-parameter-" + fault + ":" + form + "-with-Path-child"
+			tb[class] = func(t *ftree) *injected {
+				path := "/fpp/{id}/x/{id}"
+				pat := "the parameter of the path is duplicated"
+				if fault == "empty" {
+					path, pat = "/fpp/{id}/x/{}", "empty PATH parameter"
+				}
+				pd := &model.RDir{Kind: "Path", Keyword: "Path", BodyKind: "schema", BodyLines: []string{"{", "  \"id\": 1", "}"}}
+				code := &model.RDir{Kind: "HTTP-response-code", Keyword: "200", Params: []string{"any"}}
+				var b *model.RDir
+				switch form {
+				case "method":
+					b = &model.RDir{Kind: "GET", Keyword: "GET", Params: []string{path}, HasPath: true, Children: []*model.RDir{pd, code}}
+				case "url":
+					b = &model.RDir{Kind: "URL", Keyword: "URL", Params: []string{path}, Children: []*model.RDir{pd, {Kind: "GET", Keyword: "GET", Children: []*model.RDir{code}}}}
+				default:
+					b = &model.RDir{Kind: "URL", Keyword: "URL", Params: []string{path}, Children: []*model.RDir{{Kind: "GET", Keyword: "GET", Children: []*model.RDir{pd, code}}}}
+				}
+				t.roots = append(t.roots, b)
+				return &injected{class: class, off: b, patterns: []string{pat}}
+			}
+		}
+	}
 	// a directive without its body as the very last thing of a file that ends without a line break
 	for _, k := range []string{"ENUM", "TYPE", "ENUM-nameless"} {
 		kind := k
